@@ -26,11 +26,12 @@ type useSpelling struct {
 	text string // as written after USE
 }
 
-var sessionKeyspaces = []string{"ks1", "Ks2", "ks3", "ks4", "ks5", "ks6"}
+// "Ks2" and "ks2" are different keyspaces (the first needs quoting), so are "Ks7" (exists) and "ks7" (does not)
+var sessionKeyspaces = []string{"ks1", "Ks2", "ks2", "ks3", "ks4", "ks5", "ks6", "Ks7"}
 
 // spellings of USE targets: folded name and validity are computed by the CQL identifier rules
 // (fakecql.FoldKeyspace) and the backend's keyspace set - never by the proxy's parser.
-var useTargets = []string{"ks1", "KS1", `"ks1"`, `"Ks2"`, "Ks2", `"KS2"`, "nope", `"Nope"`, "ks3", "Ks3", `"ks3"`, "kS4", `"ks5"`, "KS6"}
+var useTargets = []string{"ks1", "KS1", `"ks1"`, `"Ks2"`, "Ks2", `"KS2"`, "nope", `"Nope"`, "ks3", "Ks3", `"ks3"`, "kS4", `"ks5"`, "KS6", `"Ks7"`, "Ks7", `"Ks2"`, `"Ks7"`}
 
 type sessClient struct {
 	c    *cqlclient.Client
